@@ -19,17 +19,14 @@ func CompileToGetCodeSet(ctx *RuntimeContext, typeptr uintptr) (*OpcodeSet, erro
 		return getFilteredCodeSetIfNeeded(ctx, codeSet)
 	}
 	index := (typeptr - typeAddr.BaseTypeAddr) >> typeAddr.AddrShift
+	// the lock covers the slot only: filtering by a field query marshals the query, which comes back
+	// here, and a read lock taken again behind a waiting writer never returns
 	setsMu.RLock()
-	if codeSet := cachedOpcodeSets[index]; codeSet != nil {
-		filtered, err := getFilteredCodeSetIfNeeded(ctx, codeSet)
-		if err != nil {
-			setsMu.RUnlock()
-			return nil, err
-		}
-		setsMu.RUnlock()
-		return filtered, nil
-	}
+	codeSet := cachedOpcodeSets[index]
 	setsMu.RUnlock()
+	if codeSet != nil {
+		return getFilteredCodeSetIfNeeded(ctx, codeSet)
+	}
 
 	codeSet, err := newCompiler().compile(typeptr)
 	if err != nil {
